@@ -153,8 +153,9 @@ class LiteDRAMAvalonMM2Native(LiteXModule):
                 )
             ).Else(
                 avalon.waitrequest.eq(1),
-                # Wait for the FIFO to be empty
-                If((cmd_fifo.level == 0) & (wdata_fifo.level == 1) & port.wdata.ready,
+                # Wait for all beats of the burst to be accepted and for the FIFOs to be empty
+                # (an idle master in the middle of a burst does not end it).
+                If((burst_count == 0) & (cmd_fifo.level == 0) & (wdata_fifo.level == 0),
                     NextState("START")
                 )
             ),
